@@ -3,10 +3,11 @@
     Both statements are evaluated ([vm_compute]) on one small definition each; they say that the
     corresponding hypothesis of the main theorem cannot be dropped:
     - [printable] (no astral characters) in [default_roundtrip_values];
-    - [scalars_accept_all] in [rebuild_same_for_validation]. *)
+    - [scalars_accept_all] in [rebuild_same_for_validation];
+    - [depth_ok] (chains within the depth of introspection.Query) in [introspect_describes]. *)
 From Coq Require Import List NArith ZArith Bool String.
 From ApiFu Require Import Base.Sexp Intro.Utf8 Intro.IntrospectModel Intro.MarshalValue Intro.LiteralSpec
-     Intro.IntrospectSpec Intro.Rebuild Intro.RebuildSpec Intro.MarshalProofs Intro.RebuildProofs.
+     Intro.IntrospectSpec Intro.Rebuild Intro.RebuildSpec Intro.IntrospectProofs Intro.MarshalProofs Intro.RebuildProofs.
 Import ListNotations.
 Open Scope N_scope.
 Open Scope string_scope.
@@ -53,7 +54,7 @@ Definition S_picky : schema :=
     rebuilt definition is NOT the original for validation: its Date accepts every literal *)
 Theorem rebuild_picky_scalar_refuted :
   exists S F r R,
-    depth_ok S = true /\ gating_coherent S F = true /\ interfaces_declared_once S = true /\ locations_known S = true /\
+    depth_ok S = true /\ interfaces_declared_once S = true /\ locations_known S = true /\
     refs_defined S = true /\ gating_nested S = true /\ roots_visible S F = true /\
     builtins_consistent S = true /\ kinds_ok S = true /\ defaults_denote S /\
     scalars_accept_all S = false /\
@@ -65,10 +66,40 @@ Proof.
   destruct (rebuild (map_defaults dflt_text r)) as [R|] eqn:Er;
     [|vm_compute in Ei; injection Ei as <-; vm_compute in Er; discriminate].
   exists r, R.
-  do 9 (split; [vm_compute; reflexivity|]).
+  do 8 (split; [vm_compute; reflexivity|]).
   split; [apply defaults_denote_b_spec; vm_compute; reflexivity|].
   split; [vm_compute; reflexivity|].
   split; [reflexivity|]. split; [exact Er|].
   vm_compute in Ei. injection Ei as <-. vm_compute in Er. injection Er as <-.
   vm_compute. discriminate.
+Qed.
+
+(** ** the limit of introspection.Query: chains deeper than the query nests [ofType] *)
+
+(** Query { deep: [[[[[[[[Int]]]]]]]] } — eight list wrappers around Int: nine levels *)
+Fixpoint lists (k : nat) (t : sty) : sty := match k with O => t | Datatypes.S k' => StList (lists k' t) end.
+Definition S_deep : schema :=
+  {| types := [ (nm "Int", NScalar true false [] []);
+                (nm "Query", NObject [ (nm "deep", fd (lists 8 (StNamed (nm "Int"))) []) ] [] [] []) ];
+     query := nm "Query"; mutation := None; subscription := None; additional := []; directives := [] |}.
+
+(** every hypothesis of [introspect_describes] except [depth_ok] holds; the response is not the
+    description: the type of [deep] ends after eight LIST levels without ever naming Int, so that
+    one type reference of the response does not resolve.  The standard query is not complete for
+    such a definition (it documents this limit itself); the resolvers are — a query nesting
+    [ofType] nine times sees the whole chain ([type_ref_full]). *)
+Theorem deep_chain_truncated_refuted :
+  exists S F r,
+    depth_ok S = false /\ interfaces_declared_once S = true /\ locations_known S = true /\
+    introspect (fun t d => (t, d)) S F = IntroOk r /\
+    normalise r <> describe (fun t d => (t, d)) S F /\
+    normalise r = truncate query_depth (describe (fun t d => (t, d)) S F) /\
+    refs_resolve (normalise r) = false /\
+    type_ref S 9 (lists 8 (StNamed (nm "Int"))) = Some (full_ref S (lists 8 (StNamed (nm "Int")))).
+Proof.
+  exists S_deep, [].
+  destruct (introspect (fun t d => (t, d)) S_deep []) as [r| |] eqn:Ei; [|vm_compute in Ei; discriminate..].
+  exists r. do 3 (split; [vm_compute; reflexivity|]). split; [reflexivity|].
+  vm_compute in Ei. injection Ei as <-.
+  split; [vm_compute; discriminate|]. repeat split; vm_compute; reflexivity.
 Qed.
